@@ -140,6 +140,12 @@ def run_case(case):
     # the runner then installs no filter of its own)
     wopt = 'warnings' not in subset and rng.random() < 0.34
     t2 = {'name': 'test_2', 'kind': 'pass', 'actions': []}
+    if rng.random() < 0.15:
+        # a test that takes the search path off sys.path for good
+        t2['actions'].append({'ph': 'body', 'do': 'drop_sys_path'})
+        dropped_path = True
+    else:
+        dropped_path = False
     plan = {}
     opts = {'verbose': rng.randint(0, 2)}
     if ending in ('failing', 'stop'):
@@ -252,6 +258,8 @@ def run_case(case):
         del gc.garbage[gc_garbage_before:]
         vworld.destroy(scratch)
     C('snapshots_compared')
+    if dropped_path:
+        C('sys_path_dropped_cases')
     aborted = w.raised is not None
     if aborted:
         C('aborted_runs')
